@@ -10,6 +10,8 @@ RULE = ("internal keys (random valid x-only keys) x script lists with n = 1..12 
         "(n, index)) plus random n up to 200 (1024 thorough) with a random index; scripts include equal scripts and 1-byte scripts whose leaf "
         "hashes sort both ways; address prefixes bcrt / tb / bc. Observed: 'Resulting Bech32m address' with and without a selected leaf, the "
         "witness (script, control block) inside 'Resulting transaction', and the result of the debugger's commitment check on it. "
+        "Plus: the reported signature hash (key path / script path / script path with one or two spend arguments after the index) against an "
+        "independent BIP341/342 digest, and the round trip sign -> --sig -> debugger session (witness order sig, args..., script, control). "
         "non-trivial = n >= 2; distinct = distinct (key, scripts, index, prefix)")
 
 def tagged(tag, m):
@@ -152,22 +154,29 @@ def main(tier):
         idx = rng.randrange(n)
         scripts = [bytes([0x51 + rng.randrange(16)]) for _ in range(n)]
         scripts[idx] = b"\x20" + lpk + b"\xac"
-        sh_jobs.append((sk, key, lsk, scripts, idx, rng.choice(["key", "script"]), rng.randrange(3), rng.randrange(1, 10 ** 8)))
+        mode = rng.choice(["key", "script", "script-args", "script-args"])
+        sargs = []
+        if mode == "script-args":
+            # hash-locked leaf: spend arguments (the preimages) follow the leaf index; the witness must be  sig, args..., script, control
+            sargs = [bytes(rng.randrange(256) for _ in range(rng.choice([1, 20, 32]))) for _ in range(rng.choice([1, 2]))]
+            lock = b"".join(b"\xa8\x20" + hashlib.sha256(a).digest() + b"\x88" for a in reversed(sargs))    # the last argument is on top
+            scripts[idx] = lock + b"\x20" + lpk + b"\xac"
+        sh_jobs.append((sk, key, lsk, scripts, idx, mode, rng.randrange(3), rng.randrange(1, 10 ** 8), sargs))
     sh_lines = ["tap id=s%d key=%s scripts=%s hrp=bcrt idx=%d" % (i, j[1].hex(), ",".join(x.hex() for x in j[3]), j[4]) for i, j in enumerate(sh_jobs)]
     sh_model = run_model(sh_lines)
     def run_sh(ij):
-        i, (sk, key, lsk, scripts, idx, mode, vpos, amount) = ij
+        i, (sk, key, lsk, scripts, idx, mode, vpos, amount, sargs) = ij
         f = dict(x.split("=", 1) for x in sh_model["s%d" % i][0].split()[2:] if "=" in x)
         outkey = bytes.fromhex(f["outkey"]); spk = b"\x51\x20" + outkey
         outs = [(rng.randrange(1, 10 ** 7), bytes([0x6a, 1, k])) for k in range(vpos)] + [(amount, spk)] + [(7, b"\x51")]
         fund = S.Tx(2, [(bytes(range(32)), 0, b"", 0xffffffff)], outs, 0)
         tx = S.Tx(2, [(fund.txid(), vpos, b"", 0xfffffffd)], [(amount - 500, b"\x51\x20" + bytes(32))], 17)
         base = ["-pbcrt", "--tx=" + tx.raw().hex(), "--txin=" + fund.raw().hex(), key.hex(), str(len(scripts))] + ["0x" + x.hex() for x in scripts]
-        args = base + ([str(idx)] if mode == "script" else [])
+        args = base + ([str(idx)] + ["0x" + a.hex() for a in sargs] if mode != "key" else [])
         r1 = cli.run(tapbin, args, stdin_tty=True, stdout_tty=True)
         txt = (r1["stdout"] or b"") + (r1["stderr"] or b"")
         m = re.search(rb"sighash \(little endian\) = ([0-9a-f]{64})", txt)
-        if mode == "script":
+        if mode != "key":
             lh = tagged("TapLeaf", bytes([0xc0]) + S.cs(len(scripts[idx])) + scripts[idx])
             want = S.bip341_digest(tx, 0, 0, [(amount, spk)], 1, leaf_hash=lh)
             sig = R.schnorr_sign(want, lsk)
